@@ -268,7 +268,7 @@ func c09Scenarios(tier string) []engine.Scenario {
 func init() {
 	engine.Register(&engine.Property{
 		ID: "C09", Level: "model_checking",
-		Rule:        "E1 over login (password, password+TOTP) / request / app-key / logout sequences with clock advances {1s, EA-1s, EA+1s, 3EA}; reference idle clock advanced on the same history; every request from a session with a user is compared with it (what the downstream handler can read, what the response leaves in the jar), and every request from an expired session is compared with the same request sent from a session holding only the whitelisted keys (response, session, database); classes = live / expired / boundary requests by kind",
+		Rule: "E1 over login (password, password+TOTP) / request / app-key / logout sequences with clock advances {1s, EA-1s, EA+1s, 3EA}; reference idle clock advanced on the same history; every request from a session with a user is compared with it (what the downstream handler can read, what the response leaves in the jar), and every request from an expired session is compared with the same request sent from a session holding only the whitelisted keys (response, session, database); classes = live / expired / boundary requests by kind",
 		Units: func(tier string) []engine.Unit {
 			scs := c09Scenarios(tier)
 			return e1Units(append(scs, configVariants(scs[:4], tier, "nil-state", "nomount", "err500", "json")...))
